@@ -469,9 +469,37 @@ func c06(r *Run) {
 				roundRecs[g] = my
 			}(g)
 		}
-		time.Sleep(total / time.Duration(len(gmps)))
+		// run the round; if no render returns for 8 s (renders take microseconds) the registry is stuck: a deadlock
+		// is a violation ("never a crash" — a render that never returns is worse), reported with the goroutine dump
+		deadlock := func(where string) {
+			dump := make([]byte, 1<<20)
+			dump = dump[:runtime.Stack(dump, true)]
+			txt := string(dump)
+			if len(txt) > 12000 {
+				txt = txt[:12000]
+			}
+			r.Violate("conc kind=deadlock "+where, "renderers and writers stopped making progress: no render returned for 8 s ("+where+")",
+				map[string]any{"gomaxprocs": gmp, "readers": nReaders, "writers": nWriters, "renders_so_far": atomic.LoadInt64(&allRenders), "goroutines": txt})
+			r.Abort()
+		}
+		roundEnd := time.Now().Add(total / time.Duration(len(gmps)))
+		lastN, lastT := atomic.LoadInt64(&allRenders), time.Now()
+		for time.Now().Before(roundEnd) {
+			time.Sleep(100 * time.Millisecond)
+			if n := atomic.LoadInt64(&allRenders); n != lastN {
+				lastN, lastT = n, time.Now()
+			} else if time.Since(lastT) > 8*time.Second {
+				deadlock("during the stress")
+			}
+		}
 		atomic.StoreInt32(&stop, 1)
-		wg.Wait()
+		done := make(chan struct{})
+		go func() { wg.Wait(); close(done) }()
+		select {
+		case <-done:
+		case <-time.After(10 * time.Second):
+			deadlock("goroutines did not finish after the stop signal")
+		}
 		recs = append(recs, roundRecs...)
 	}
 	runtime.GOMAXPROCS(oldGmp)
@@ -651,7 +679,54 @@ func c06(r *Run) {
 		r.Internal(fmt.Sprintf("C06: stress produced %d renders, %d overlapping a registration", renders, nontrivial))
 	}
 
+	c06Flavours(r)
 	c06ModelTie(r)
+}
+
+// c06Flavours: "after a re-registration has returned, the new version" — also when the new version is the SAME source
+// parsed with the other keepFmt setting (a template reloaded with another option): the registered name must render
+// the flavour registered last, in both orders, through every way of registering.
+func c06Flavours(r *Run) {
+	for way := 0; way < 3; way++ {
+		for _, first := range []bool{false, true} {
+			src := fmt.Sprintf("[f%d%v a\n\t  b{%%= tag %%}\n  c f%d%v]", way, first, way, first)
+			name := fmt.Sprintf("c06flavour%d%v", way, first)
+			n := &c06Name{name: name, id: 900 + way*2}
+			if first {
+				n.id++
+			}
+			var hist []string
+			ok := true
+			for step, keep := range []bool{first, !first, first} {
+				tree, err, pan := parseSafe([]byte(src), keep)
+				if err != nil || pan != "" {
+					r.Internal("C06 flavours: source does not parse")
+					ok = false
+					break
+				}
+				c06Register(n, tree, way)
+				ctx := dyntpl.NewCtx()
+				ctx.SetString("tag", "T")
+				var buf bytes.Buffer
+				var rerr error
+				if way%3 == 1 {
+					rerr = dyntpl.WriteByID(&buf, n.id, ctx)
+				} else {
+					rerr = dyntpl.Write(&buf, n.name, ctx)
+				}
+				kept := strings.Contains(buf.String(), "\n")
+				hist = append(hist, fmt.Sprintf("Parse(src, keepFmt=%v), register (way %d), render -> %q", keep, way, buf.String()))
+				r.Count(fmt.Sprintf("flavour:%d:%v:%d", way, first, step), true)
+				r.Dist["flavour-re-registration"]++
+				if rerr != nil || kept != keep {
+					r.Violate(fmt.Sprintf("conc kind=stale flavour way=%d first=%v step=%d", way, first, step), "after re-registering the same source parsed with the other keepFmt setting the name still renders the old flavour",
+						map[string]any{"source": src, "history": hist, "error": fmt.Sprint(rerr)})
+					break
+				}
+			}
+			_ = ok
+		}
+	}
 }
 
 // ---- race detector run ----
@@ -728,6 +803,8 @@ func c06RunRace(r *Run, bin string) (failed bool) {
 	case <-time.After(time.Duration(secs*4+30) * time.Second):
 		_ = cmd.Process.Kill()
 		r.Notes = append(r.Notes, "racecheck timed out")
+		r.Violate("conc kind=deadlock racecheck", fmt.Sprintf("the race-instrumented stress (renderers + writers, %d s of work) did not finish within %d s: renders or registrations are stuck", secs, secs*4+30),
+			map[string]any{"stdout_tail": tailStr(outb.String(), 1500), "stderr_tail": tailStr(errb.String(), 3000), "rerun": "cd /verif/harness/racecheck && go run -race . -seconds 5"})
 	}
 	r.Dist["race_run"]++
 	for _, l := range strings.Split(outb.String(), "\n") {
@@ -763,6 +840,13 @@ func c06RunRace(r *Run, bin string) (failed bool) {
 			map[string]any{"report": rep, "rerun": "cd /verif/harness/racecheck && go run -race . -seconds 5"})
 	}
 	return failed
+}
+
+func tailStr(s string, n int) string {
+	if len(s) > n {
+		return s[len(s)-n:]
+	}
+	return s
 }
 
 // c06RaceSig condenses one race report to "<access> | <access>", an access being e.g. "read:Ctx.SetBytes<Ctx.SetString".
